@@ -33,8 +33,8 @@ func signaturePostVerificationNecessary(
 		spMeta := spMetadataF()
 		idpMeta := idpMetadataF()
 
-		return ((spMeta == nil || spMeta.SPSSODescriptor == nil || spMeta.SPSSODescriptor.AuthnRequestsSigned == "true") ||
-			(idpMeta == nil || idpMeta.WantAuthnRequestsSigned == "true") ||
+		return ((spMeta == nil || spMeta.SPSSODescriptor == nil || isXSBooleanTrue(spMeta.SPSSODescriptor.AuthnRequestsSigned)) ||
+			(idpMeta == nil || isXSBooleanTrue(idpMeta.WantAuthnRequestsSigned)) ||
 			signaturePostProvided(signatureF)()) &&
 			protocolBinding() == PostBinding
 	}
